@@ -14,7 +14,14 @@ A case is plain JSON-able data:
   attempts: [[src_module, src_port, dst_module, dst_port], ...]   attempted connect() calls, in order
   handlers: {module: {"ports": {port: spec}, "ret_none": bool}}    absent module = no handler registered
             spec = ["raw"] | ["raw-none"] | ["tv", dtype, label]
-  ext     : {module: {port: ["raw"] | ["tv", dtype, label]}}
+                 | ["rawobj", shape, dtype_hint, label_hint]   raw payload OBJECT of some Python type (never a TypedValue) that may
+                                                               carry attributes / keys named like the library's own labels
+                 | ["tvsub", dtype, label] | ["tvconst", dtype, label]   a TypedValue SUBCLASS instance / one process-wide
+                                                               constant TypedValue object shared by everybody who asks for it
+                 | ["fwd", in_port] | ["fwdcopy", in_port] | ["fwdraw", in_port]   (handlers only) the very TypedValue object the
+                                                               module received on in_port / an equal copy of it / its bare payload
+            optional "callable": shape of the registered handler object (see CALLABLES)
+  ext     : {module: {port: ["raw"] | ["rawobj", ...] | ["tv" | "tvsub" | "tvconst", dtype, label]}}
   enforce : bool, runs: 1|2
 dtype is the DataType value string, label the IntegrityLabel int.
 """
@@ -45,11 +52,24 @@ def attempt_expectation(case, a):
     return True, "legal"
 
 
+LABELLED = ("tv", "tvsub", "tvconst")        # explicitly labelled values: instances of TypedValue
+FORWARDS = ("fwd", "fwdcopy")                 # labelled values whose label is the one the forwarded input arrived with
+CALLABLES = ["function", "bound-method", "partial", "callable-object", "empty-list-callable", "empty-dict-callable",
+             "bool-false-callable", "len-zero-callable", "extra-optional-arg", "staticmethod-call"]
+PAYLOAD_SHAPES = ["carrier", "approval", "namesake", "dict-labels", "tuple3", "label-member", "dtype-member", "porttype",
+                  "nested-tv", "falsy", "sentinel", "str-subclass", "nan", "hostile-dunder", "callable", "exception"]
+
+
+def is_labelled(spec):
+    return spec[0] in LABELLED
+
+
 def spec_conformance(spec, declared):
-    """Classify a handler output spec against the declared (dtype, label) of its port."""
-    if spec[0] in ("raw", "raw-none"):
+    """Classify a handler output spec against the declared (dtype, label) of its port. Raw payloads of any Python type are
+    unlabelled (only TypedValue instances are 'explicitly labelled'); forwards are resolved by analyze()."""
+    if spec[0] not in LABELLED:
         return "ok"
-    _, dt, il = spec
+    _, dt, il = spec[:3]
     if dt != declared[0]:
         return "wrong-type"
     if il < declared[1]:
@@ -57,6 +77,25 @@ def spec_conformance(spec, declared):
     if il > declared[1]:
         return "higher-integrity"
     return "ok"
+
+
+def arriving_label(mods, sources, mname, port):
+    """(dtype, label) carried by the value that a conforming execution delivers to mname.port, or None when the port does not
+    exist / has no single source. A wired port receives the source's output, which (when it is accepted at all) carries exactly
+    the declared label of the source port; an external raw value is labelled with the port's own type; an external labelled
+    value keeps its label."""
+    if port not in mods[mname]["inputs"]:
+        return None
+    srcs = sources.get((mname, port), [])
+    if len(srcs) != 1:
+        return None
+    s = srcs[0]
+    if s[0] == "wire":
+        return tuple(mods[s[1]]["outputs"][s[2]])
+    spec = s[1]
+    if is_labelled(spec):
+        return (spec[1], spec[2])
+    return tuple(mods[mname]["inputs"][port])
 
 
 def analyze(case, wires):
@@ -81,7 +120,7 @@ def analyze(case, wires):
                 lenient.append((mname, "unknown-ext-target"))
                 continue
             decl = mods[mname]["inputs"][p]
-            if spec[0] == "tv" and not (spec[1] == decl[0] and spec[2] >= decl[1]):
+            if is_labelled(spec) and not (spec[1] == decl[0] and spec[2] >= decl[1]):
                 problems.append("bad-ext-input")
             if sources[(mname, p)]:
                 ext_on_wired.append((mname, p))
@@ -131,6 +170,12 @@ def analyze(case, wires):
             lenient.append((name, "port-set-mismatch"))
         for p, spec in prog["ports"].items():
             if p in decl:
+                if spec[0] in FORWARDS:
+                    # the forwarded object carries the label it was delivered with: that of its (single) source
+                    arrived = arriving_label(mods, sources, name, spec[1])
+                    if arrived is None:
+                        continue     # nothing (or nothing well-defined) arrives there: the stub falls back to a raw value
+                    spec = ["tv", arrived[0], arrived[1]]
                 k = spec_conformance(spec, decl[p])
                 if k != "ok":
                     mislabelled[(name, p)] = k
@@ -731,3 +776,307 @@ def capshare_sweep(x, y, perm):
     ops = [["add", 0, 0], ["add", 0, 1], ["add", 1, 0], ["add", 2, 2], ["add", 3, 1], ["add", 3, 0], ["add", 4, 3]]
     ops += [["query", d] for d in perm] + [["query", d] for d in reversed(perm)]
     return {"sets": [list(x), list(y)], "specs": specs, "ndiagrams": 5, "ops": ops}
+
+
+# ---------------------------------------------------------------------------- round 4: value types, object protocols, names
+# Helper classes live here (an importable module) so that pickle / deepcopy round trips of diagrams that hold them work.
+class Name(str):
+    """A str subclass: equal to and hashing like the plain string, but not of type str."""
+    __slots__ = ()
+
+
+class Carrier:
+    """Raw payload that happens to expose attributes named like the library's labels. It is NOT a labelled value."""
+
+    def __init__(self, tok, data_type, integrity):
+        self.tok, self.value, self.data_type, self.integrity = tok, tok, data_type, integrity
+
+    def __repr__(self):
+        return "Carrier(%r)" % (self.tok,)
+
+
+class Sentinel:
+    """Compares by identity only."""
+    __slots__ = ("tok",)
+
+    def __init__(self, tok):
+        self.tok = tok
+
+
+class HostileDunder:
+    """A payload whose __eq__/__bool__/__len__/__hash__/__iter__ raise: an executor has no business calling them."""
+
+    def __init__(self, tok):
+        self.tok = tok
+
+    def _no(self, *a, **k):
+        raise RuntimeError("payload dunder called")
+
+    __eq__ = __ne__ = __bool__ = __len__ = __hash__ = __iter__ = _no      # (printing it is allowed: messages may show values)
+
+
+class CallableObject:
+    def __init__(self, fn):
+        self.fn = fn
+
+    def __call__(self, inputs):
+        return self.fn(inputs)
+
+
+class EmptyListCallable(list):
+    """A list-based step pipeline that is still empty: len 0, hence falsy - and a perfectly good handler."""
+
+    def __init__(self, fn):
+        super().__init__()
+        self.fn = fn
+
+    def __call__(self, inputs):
+        return self.fn(inputs)
+
+
+class EmptyDictCallable(dict):
+    def __init__(self, fn):
+        super().__init__()
+        self.fn = fn
+
+    def __call__(self, inputs):
+        return self.fn(inputs)
+
+
+class BoolFalseCallable(CallableObject):
+    def __bool__(self):
+        return False
+
+
+class LenZeroCallable(CallableObject):
+    def __len__(self):
+        return 0
+
+
+class ExtraOptionalArg(CallableObject):
+    def __call__(self, inputs, extra=None, *more, **kw):
+        return self.fn(inputs)
+
+
+class StaticCall:
+    """__call__ is a staticmethod installed per class (made by make_callable)."""
+
+
+def make_callable(shape, fn):
+    """Wrap the stub function `fn(inputs)` in a handler object of the given shape. All of them are callables taking the inputs
+    mapping; some are falsy, some are not functions."""
+    import functools
+    if shape == "bound-method":
+        return CallableObject(fn).__call__
+    if shape == "partial":
+        return functools.partial(lambda pad, inputs: fn(inputs), None)
+    if shape == "callable-object":
+        return CallableObject(fn)
+    if shape == "empty-list-callable":
+        return EmptyListCallable(fn)
+    if shape == "empty-dict-callable":
+        return EmptyDictCallable(fn)
+    if shape == "bool-false-callable":
+        return BoolFalseCallable(fn)
+    if shape == "len-zero-callable":
+        return LenZeroCallable(fn)
+    if shape == "extra-optional-arg":
+        return ExtraOptionalArg(fn)
+    if shape == "staticmethod-call":
+        cls = type("StaticCallN", (StaticCall,), {"__call__": staticmethod(fn)})
+        return cls()
+    return fn
+
+
+HANDLER_EXCEPTIONS = ["TypeError", "KeyError", "TimeoutError", "AssertionError", "ValueError", "WiringError", "StopIteration",
+                      "RuntimeError", "LookupError", "AttributeError", "unprintable", "base-exception"]
+
+
+class UnprintableError(Exception):
+    def __str__(self):
+        raise RuntimeError("this exception cannot be printed")
+
+    __repr__ = __str__
+
+
+class HandlerAbort(BaseException):
+    pass
+
+
+HOSTILE_NAMES = ["", " ", "a.b", "{0}", "{x!r}", "%s", "%(m)s", "\x00", "a\nb", "m[0]", "(?P<x>", ".*", "\\", "\ud800",
+                 "M0", "é", "None", "0", "o0", "i0", "__class__", "x" * 300, "\t", "'", '"', "\udcff\x7f", "*", "m0 "]
+
+
+def _map_prog(prog, pmap):
+    out = dict(prog)
+    ports = {}
+    for p, spec in prog["ports"].items():
+        if spec[0] in ("fwd", "fwdcopy", "fwdraw"):
+            spec = [spec[0], pmap.get(spec[1], spec[1])]
+        ports[pmap.get(p, p)] = spec
+    out["ports"] = ports
+    return out
+
+
+def rename_case(case, mmap, pmap):
+    """Rename modules / ports everywhere in a case (in place). Unknown names ('ghost', 'i9') are renamed consistently too."""
+    def mm(x):
+        return mmap.get(x, x)
+
+    def pp(x):
+        return pmap.get(x, x)
+
+    def layer(d):
+        for m in d["modules"]:
+            m["name"] = mm(m["name"])
+            m["inputs"] = {pp(p): s for p, s in m["inputs"].items()}
+            m["outputs"] = {pp(p): s for p, s in m["outputs"].items()}
+        d["attempts"] = [[mm(a[0]), pp(a[1]), mm(a[2]), pp(a[3])] for a in d["attempts"]]
+        d["handlers"] = {mm(n): _map_prog(prog, pmap) for n, prog in d["handlers"].items()}
+        d["ext"] = {mm(n): {pp(p): s for p, s in ports.items()} for n, ports in d["ext"].items()}
+    layer(case)
+    for ph in case.get("phases") or []:
+        layer(ph)
+    for ent in case.get("reenter") or []:
+        ent["module"] = mm(ent["module"])
+    for r in case.get("raises") or []:
+        r[2] = mm(r[2])
+    case["topo"] = None
+    return case
+
+
+def all_names(case):
+    mods, ports = [], []
+    for d in [case] + list(case.get("phases") or []):
+        for m in d["modules"]:
+            mods.append(m["name"])
+            ports.extend(m["inputs"])
+            ports.extend(m["outputs"])
+        for a in d["attempts"]:
+            mods.extend([a[0], a[2]])
+            ports.extend([a[1], a[3]])
+        for n, prog in d["handlers"].items():
+            mods.append(n)
+            ports.extend(prog["ports"])
+        for n, ps in d["ext"].items():
+            mods.append(n)
+            ports.extend(ps)
+    return list(dict.fromkeys(mods)), list(dict.fromkeys(ports))
+
+
+def hostile_names(case, rng):
+    """Give some (or all) modules and ports names with regex / format metacharacters, NUL, newlines, lone surrogates, the empty
+    string, names that differ only in case or that collide with port names. Injective, so the diagram is the same diagram."""
+    mods, ports = all_names(case)
+    pool = list(HOSTILE_NAMES)
+    rng.shuffle(pool)
+    mmap, pmap = {}, {}
+    share = rng.choice([0.3, 0.6, 1.0])
+    for m in mods:
+        if pool and rng.random() < share:
+            mmap[m] = pool.pop()
+    pool = [x for x in HOSTILE_NAMES if x not in ports]
+    rng.shuffle(pool)
+    for p in ports:
+        if pool and rng.random() < share:
+            pmap[p] = pool.pop()
+    taken = set(mods) - set(mmap)
+    mmap = {k: v for k, v in mmap.items() if v not in taken}
+    rename_case(case, mmap, pmap)
+    case["faults"] = list(case["faults"]) + ["hostile-names"]
+    return case
+
+
+def accepted_sources(case):
+    """(module, port) -> list of declared source (dtype, label) over the attempts the model accepts (all phases), + ext specs."""
+    mods = {}
+    atts, ext = [], {}
+    for d in [case] + list(case.get("phases") or []):
+        for m in d["modules"]:
+            mods[m["name"]] = m
+        atts.extend(d["attempts"])
+    full = {"modules": list(mods.values())}
+    src = {}
+    for a in atts:
+        if attempt_expectation(full, a)[0]:
+            src.setdefault((a[2], a[3]), []).append(tuple(mods[a[0]]["outputs"][a[1]]))
+    for n, ps in case["ext"].items():
+        for p, spec in ps.items():
+            if n in mods and p in mods[n]["inputs"]:
+                src.setdefault((n, p), []).append((spec[1], spec[2]) if is_labelled(spec) else tuple(mods[n]["inputs"][p]))
+    return mods, src
+
+
+def vary_values(case, rng, dtypes, labels, p_obj=0.3, p_fwd=0.3, p_call=0.4):
+    """Round-4 value types (in place). Raw values become payload objects of many Python types (some carrying attributes named
+    like the library's labels); labelled values become TypedValue subclass instances or one shared constant object (same label:
+    whether it conforms does not change); raw handler outputs become forwards of a received input (the model decides whether
+    the forwarded label conforms); handlers get registered as callables of other shapes."""
+    mods, src = accepted_sources(case)
+
+    def vary(spec, mname, out_decl):
+        if spec[0] == "raw" and rng.random() < p_obj:
+            return ["rawobj", rng.choice(PAYLOAD_SHAPES), rng.choice(dtypes), rng.choice(labels)]
+        if spec[0] == "tv" and rng.random() < 0.25:
+            return [rng.choice(["tvsub", "tvsub", "tvconst"]), spec[1], spec[2]]
+        return spec
+
+    layers = [case] + list(case.get("phases") or [])
+    for d in layers:
+        for n, ps in d["ext"].items():
+            for p in list(ps):
+                ps[p] = vary(ps[p], n, None)
+        for n, prog in d["handlers"].items():
+            ins = sorted(mods[n]["inputs"]) if n in mods else []
+            for p in list(prog["ports"]):
+                spec = prog["ports"][p]
+                if spec[0] == "raw" and ins and rng.random() < p_fwd:
+                    decl = mods[n]["outputs"].get(p)
+                    match = [ip for ip in ins if decl is not None and len(src.get((n, ip), [])) == 1
+                             and list(src[(n, ip)][0]) == list(decl)]
+                    ip = rng.choice(match) if match and rng.random() < 0.6 else rng.choice(ins)
+                    prog["ports"][p] = [rng.choice(["fwd", "fwd", "fwdcopy", "fwdraw"]), ip]
+                else:
+                    prog["ports"][p] = vary(spec, n, None)
+            if rng.random() < p_call:
+                prog["callable"] = rng.choice(CALLABLES[1:])
+    case["faults"] = list(case["faults"]) + ["value-types"]
+    return case
+
+
+CALL_STYLES = ["default", "keywords", "positional", "truthy-falsy-other-types", "all-keywords-other-types"]
+EXT_CONTAINERS = ["dict", "ordered-dict", "mapping-proxy", "dict-subclass", "none-when-empty"]
+DUP_MODES = ["assign-rebuilt", "assign-deepcopy", "assign-pickle", "assign-copy", "copy-executor", "deepcopy-executor",
+             "fresh-executor-on-pickled-diagram", "fields-reassigned"]
+
+
+def add_raises(case, rng):
+    """Script handlers that raise (one exception type each) in some outermost / nested executions; make sure an execution
+    follows on the same executor, which is judged in full (the state after a user exception is what the statement covers)."""
+    layers = [case] + list(case.get("phases") or [])
+    names = sorted({n for d in layers for n in d["handlers"]})
+    if not names:
+        return False
+    total = sum(d["runs"] for d in layers)
+    raises = []
+    for _ in range(rng.choice([1, 1, 2, 3])):
+        raises.append([rng.randrange(total), 0 if rng.random() < 0.8 else 1, rng.choice(names), rng.choice(HANDLER_EXCEPTIONS)])
+    case["raises"] = raises
+    last = max(r[0] for r in raises)
+    if last >= total - 1:
+        layers[-1]["runs"] += 1 + (last - (total - 1))
+    case["faults"] = list(case["faults"]) + ["handler-raises"]
+    return True
+
+
+def add_dups(case, rng):
+    """Later phases start by duplicating the diagram / the executor (copy, deepcopy, pickle, rebuilt; assigned to the
+    executor's public `diagram` attribute or wrapped in a fresh executor); everything afterwards acts on the duplicate."""
+    if not case.get("phases"):
+        build_history(case, [[]], runs=[1])
+        case["faults"] = list(case["faults"]) + ["history"]
+    for ph in case["phases"]:
+        if rng.random() < 0.8:
+            ph["dup"] = rng.choice(DUP_MODES)
+    case["faults"] = list(case["faults"]) + ["duplicated"]
+    return case
